@@ -1590,6 +1590,59 @@ INT_CMP = (r"Partial(Eq|Ord).*::(eq|ne|lt|le|gt|ge)$", oracle_int_eq)
 STR_EQ = (r"PartialEq.*::(eq|ne)$|str::traits::.*::(eq|ne)$", oracle_str_eq)
 
 
+HTTP_VERSIONS = {"HTTP_09": "Http09", "HTTP_10": "Http10", "HTTP_11": "Http11", "HTTP_2": "H2", "HTTP_3": "H3"}
+
+
+def http_version(name):
+    """`http::Version::HTTP_x` as a structured value (`Version(Http::..)`): a `match` on a version constant reads the inner
+    discriminant, `==` compares structurally (see `version_name`)."""
+    return ("variant", "Version", ((0, ("variant", HTTP_VERSIONS[name], ())),))
+
+
+def version_name(v):
+    """HTTP_x for either spelling of a version value (the constant's path, or the structured value)."""
+    while v is not None and v[0] == "refval":
+        v = v[1]
+    if v is None:
+        return None
+    if v[0] == "const":
+        m = re.search(r"Version::(HTTP_\w+)$", str(v[1]))
+        return m.group(1) if m else None
+    if v[0] == "variant" and v[1] == "Version":
+        inner = dict(v[2]).get(0)
+        if inner is not None and inner[0] == "variant":
+            for k, n in HTTP_VERSIONS.items():
+                if n == inner[1]:
+                    return k
+    return None
+
+
+VERSION_ORDER = {"HTTP_09": 0, "HTTP_10": 1, "HTTP_11": 2, "HTTP_2": 3, "HTTP_3": 4}
+
+
+def raw_version_cmp(ev, st, t, site):
+    """Raw oracle: `==`, `!=`, `<`, `>=`, ... between two known HTTP versions (either spelling)."""
+    if len(t.get("args") or []) != 2:
+        return False
+    a = version_name(deref_value(st, ev._eval_operand(st, t["args"][0])))
+    b = version_name(deref_value(st, ev._eval_operand(st, t["args"][1])))
+    if a is None or b is None:
+        return False
+    x, y = VERSION_ORDER[a], VERSION_ORDER[b]
+    op = norm(site.name).split("::")[-1]
+    r = {"lt": x < y, "le": x <= y, "gt": x > y, "ge": x >= y, "eq": x == y, "ne": x != y}.get(op)
+    if r is None:
+        return False
+    d = t["dest"]
+    if d["p"]:
+        return False
+    st[d["l"]] = ("const", "true" if r else "false")
+    return True
+
+
+VERSION_CMP = (r"Partial(Eq|Ord).*::(eq|ne|lt|le|gt|ge)$", raw_version_cmp)
+
+
 def deref_value(st, v, hops=8):
     """Follow references of every kind (whole-local, by-value snapshot, path into a known value, modelled cell) to the value."""
     while v is not None and hops > 0:
